@@ -166,6 +166,8 @@ type schedRun struct {
 	restoreTime func()
 	steps      int
 	failWhileBlocked bool
+	failSnaps [][]Status // task statuses (as tracked) at the instant a handler returned an error
+	failTasks []int
 	resumeExempt map[string]bool // C04: first start of a handler that was in flight at the crash (its start was judged before the crash)
 	abortIdle bool
 }
@@ -278,6 +280,8 @@ func (h *schedRun) decide(idx int, phase string, killed bool, t *Task) error {
 			h.cnt.failedUndo[idx] = true
 		}
 		h.logf("    %s(%d) returns error (killed=%v)", phase, idx, killed)
+		h.failSnaps = append(h.failSnaps, append([]Status(nil), h.tracked...))
+		h.failTasks = append(h.failTasks, idx)
 		if len(h.blocked) > 0 {
 			h.failWhileBlocked = true
 		}
